@@ -39,6 +39,8 @@ import PyhamModel.Lemmas.NestedPg
 import PyhamModel.Lemmas.NestedPgCx
 import PyhamModel.Lemmas.Locality
 import PyhamModel.Lemmas.OmaLemmas
+import PyhamModel.Lemmas.Listing
+import PyhamModel.Lemmas.Corollaries
 namespace Pyham.Props
 open Pyham
 
@@ -198,6 +200,18 @@ theorem C06_number_duplications (H : Ham) (a d : Taxon) :
     (hogsMap H a d).ndup = ((hogsMap H a d).dupl.map fun e => e.2.length - 1).sum :=
   Pyham.C06_number_duplications H a d
 
+/-- C06 for every loaded consistent input -/
+theorem C06_on_loaded_consistent_input (D : Dataset) (hc : D.Consistent) :
+    ∃ H, load D.T D.nm D.file = .ok H ∧
+      (∀ a d n, n ∈ (hogsMap H a d).gain ↔ ∃ r ∈ H.nodesAt d, r.node = n ∧ ∀ y ∈ r.anc, y.tx ≠ a) ∧
+      (∀ a r, r ∈ H.allLocs → ∀ x f, search a r = (some x, f) ↔
+          ∃ pre post, r.anc = pre ++ x :: post ∧ x.tx = a ∧
+            (∀ y ∈ r.anc, y.tx = a → y = x) ∧ f = (flagged r.node || pre.any flagged)) ∧
+      (∀ a d x, x ∈ H.nodesAt a →
+          (x.node ∈ (hogsMap H a d).loss ↔ ∀ r ∈ H.nodesAt d, ∀ y ∈ r.anc, y.key ≠ x.node.key)) ∧
+      (∀ a d, (hogsMap H a d).ndup = ((hogsMap H a d).dupl.map fun e => e.2.length - 1).sum) :=
+  Pyham.C06_on_loaded_consistent_input D hc
+
 /-! ## C07 — comparisons compose along a lineage -/
 
 theorem C07_compose (H : Ham) (hw : H.WFc) (a b : Taxon) (hab : a <:+ b) (hne : a ≠ b)
@@ -207,6 +221,16 @@ theorem C07_compose (H : Ham) (hw : H.WFc) (a b : Taxon) (hab : a <:+ b) (hne : 
           search a r = ((search a ⟨y, post⟩).1, g || (search a ⟨y, post⟩).2)) ∧
     (∀ g, search b r = (none, g) → (search a r).1 = none) :=
   Pyham.C07_compose H hw a b hab hne r hr hbr hbne
+
+/-- C07 for every loaded consistent input -/
+theorem C07_on_loaded_consistent_input (D : Dataset) (hc : D.Consistent) :
+    ∃ H, load D.T D.nm D.file = .ok H ∧
+      ∀ (a b : Taxon), a <:+ b → a ≠ b → ∀ r ∈ H.allLocs, b <:+ r.node.tx → b ≠ r.node.tx →
+        (∀ y g, search b r = (some y, g) →
+          ∃ post, (⟨y, post⟩ : Loc) ∈ H.nodesAt b ∧
+            search a r = ((search a ⟨y, post⟩).1, g || (search a ⟨y, post⟩).2)) ∧
+        (∀ g, search b r = (none, g) → (search a r).1 = none) :=
+  Pyham.C07_on_loaded_consistent_input D hc
 
 /-! ## C08 — lateral = vertical against the common ancestor; argument order irrelevant -/
 
@@ -477,6 +501,12 @@ theorem C15_unknown_keys (H : Ham) (id : String) :
 theorem C15_xref (H : Ham) (g : GeneRec) (hg : g ∈ H.genes) (k v : String) (hx : (k, v) ∈ g.xrefs) :
     ∃ ids, H.genesByExternalId v = .ok ids ∧ g.id ∈ ids := Pyham.C15_xref H g hg k v hx
 
+/-- the genome returned as the common ancestor of a genome set lives at the deepest taxon that is an
+    ancestor-or-self of all of them -/
+theorem C15_mrca_set_lookup (H : Ham) (gs : List Taxon) (t : Taxon) (h : H.ancestralGenomeByMrca gs = .ok t) :
+    (∀ g ∈ gs, t <:+ g) ∧ (∀ c, (∀ g ∈ gs, c <:+ g) → c <:+ t) ∧ t ∈ H.ancestralTaxa :=
+  Pyham.C15_mrca_set_lookup H gs t h
+
 theorem C15_never_ambiguous (T : STree) (nm : Naming) (h : taxonomyBuild T nm = .ok ()) (s : String) :
     (∀ p q, p ∈ T.leafTaxa → q ∈ T.leafTaxa → T.nameAt nm p = some s → T.nameAt nm q = some s → p = q) ∧
     (∀ p q, p ∈ T.internalTaxa → q ∈ T.internalTaxa → T.nameAt nm p = some s → T.nameAt nm q = some s → p = q) :=
@@ -512,11 +542,29 @@ theorem C16_clustering_disjoint (H : Ham) (hw : H.WFc) (t : Taxon) (e1 e2 : Node
     (g : String) (hg1 : g ∈ e1.2) : g ∉ e2.2 :=
   Pyham.C16_clustering_disjoint H hw t e1 e2 h1 h2 hne g hg1
 
+/-- C16 (ancestral clustering) for every loaded consistent input -/
+theorem C16_on_loaded_consistent_input (D : Dataset) (hc : D.Consistent) :
+    ∃ H, load D.T D.nm D.file = .ok H ∧
+      ∀ t (e1 e2 : Node × List String), e1 ∈ ancestralClustering H t → e2 ∈ ancestralClustering H t →
+        e1.1.key ≠ e2.1.key → ∀ g ∈ e1.2, g ∉ e2.2 :=
+  Pyham.C16_on_loaded_consistent_input D hc
+
 /-! ## C17 — analyses are read-only; results do not depend on call history -/
 
 theorem C17_history_independent (H : Ham) (ops : List Op) :
     (run (SState.init H) ops).1.H = H ∧ (run (SState.init H) ops).2 = ops.map (answer H) :=
   Pyham.C17_history_independent H ops
+
+/-- **the only permitted side effect**: after any call sequence every genome that existed after loading is still
+    listed, and every other listed genome (created lazily by a lateral comparison or a tree profile) is empty.
+    The hypothesis holds for every loaded analysis (`C17_loaded_genes_in_species`). -/
+theorem C17_listing (H : Ham) (hg : H.genesInSpecies) (ops : List Op) :
+    (∀ t ∈ H.initialGenomes, t ∈ (run (SState.init H) ops).1.listing) ∧
+    (∀ t ∈ (run (SState.init H) ops).1.listing, t ∉ H.initialGenomes → H.genomeSize t = 0) :=
+  Pyham.C17_listing H hg ops
+
+theorem C17_loaded_genes_in_species (T : STree) (nm : Naming) (inp : Input) (H : Ham) (h : load T nm inp = .ok H) :
+    H.genesInSpecies := load_genesInSpecies T nm inp H h
 
 /-! ## C18 — the taxonomy names, measures and serialises the tree faithfully -/
 
